@@ -340,6 +340,12 @@ def build():
             lambda a, k: (a[0]["t"], len(a[0]["shape"]), any(v < 0 for v in a[0]["data"]), any(v < 0 for v in a[1]["data"]),
                           any(abs(v) >= 2 ** 24 for v in a[0]["data"]))))
 
+    F.append(Fam(
+        "div_mode", "aten_div_mode", lambda p, q, rounding_mode: torch.div(p, q, rounding_mode=rounding_mode), G.gen_div_mode,
+        lambda a, k: f"(CArith (OpDivModeInt {b(k['rounding_mode'] == 'floor')}) {lz(a[0]['data'])} {lz(a[1]['data'])})",
+        lambda a, k, out: rdata(out),
+        lambda a, k: (a[0]["t"], k["rounding_mode"], any(v < 0 for v in a[0]["data"]), any(v < 0 for v in a[1]["data"]),
+                      any(abs(v) >= 2 ** 24 for v in a[0]["data"] + a[1]["data"]))))
     arith("floor_divide", "aten_floor_divide", lambda p, q: torch.floor_divide(p, q), G.gen_floor_divide,
           lambda a: "OpFloorDivU" if a[0]["t"] == "uint8" else f"(OpFloorDivS {code[a[0]['t']]})")
     arith("remainder", "aten_remainder", lambda p, q: torch.remainder(p, q), G.gen_remainder, lambda a: "OpRemainder")
